@@ -31,7 +31,7 @@ def candidate_params(desc, pars):
 
 class CompileCase:
     def __init__(self, M, rng: random.Random, desc, pars, symtype, sym_keys=(), opts=None, ops=None,
-                 own_symbols=True, extra_params=None, prestep=None, fixed_from=None, fixed_prob=0.0, stacked=False, reuse=None):
+                 own_symbols=True, extra_params=None, prestep=None, fixed_from=None, fixed_prob=0.0, stacked=False, reuse=None, named_scalars_prob=0.0, scaled_prob=0.0, restep_T=None):
         import casadi as cs
 
         NE, CE = drive.engines(M)
@@ -40,6 +40,7 @@ class CompileCase:
         self.XX = getattr(cs, symtype)
         self.sym_keys = list(sym_keys)
         self.fixed = {}  # (element id, variable) -> number supplied instead of a symbol
+        self.scaled = {}  # (element id, variable) -> (a, b): the step was given a + b * symbol
         override = {}
         self.parameters = {}
         self.pvalues = {}
@@ -117,7 +118,9 @@ class CompileCase:
         if own_symbols:
             drive.do_step(self.built.net, self.via, rng=rng, engine=self.engine, **self.opts, **kw)
         else:
-            ic, self.syms = drive.sym_init(M, self.built, symtype, shuffle_keys=(rng if rng.random() < 0.6 else None))
+            self.named_scalars = symtype == "SX" and rng.random() < named_scalars_prob
+            ic, self.syms = drive.sym_init(M, self.built, symtype, shuffle_keys=(rng if rng.random() < 0.6 else None),
+                                           named_scalars=(rng if self.named_scalars else None))
             # some controls / disturbances may be supplied as plain numbers (a fixed demand, a fixed
             # metering rate): they are then constants of the function, not arguments
             if fixed_from is not None and rng.random() < fixed_prob:
@@ -133,8 +136,37 @@ class CompileCase:
                     num = float(xs[0]) if form == "float" else (np.array(xs, dtype=float) if form == "array" else cs.DM(xs))
                     ic[self.built.el(eid)][name] = num
                     self.fixed[(eid, name)] = x
+            if rng.random() < scaled_prob:
+                # controls / disturbances handed over as expressions of the user's own (normalised) symbols,
+                # e.g. v_ctrl = 50 + 70 * u_n: the function's arguments are those symbols
+                lay = D.var_layout(desc)
+                for eid, L in lay.items():
+                    for grp in ("actions", "disturbances"):
+                        for name, n in L[grp]:
+                            if n > 0 and (eid, name) not in self.fixed and rng.random() < 0.4:
+                                a_, b_ = rng.choice((0.0, 5.0, 50.0)), rng.choice((0.5, 2.0, 70.0, 3000.0))
+                                el_ = self.built.el(eid)
+                                ic[el_][name] = a_ + b_ * ic[el_][name]
+                                self.scaled[(eid, name)] = (a_, b_)
             drive.do_step(self.built.net, self.via, rng=rng, init_conditions=ic, engine=self.engine, **self.opts, **kw)
         self.order = C.live_order(self.built)
+        if restep_T is not None and not any(k_ == ("#", "T") for k_ in self.sym_keys):
+            # a second model over the same variables at another sampling time: the function of the first
+            # step is built (same `parameters` dictionary, flow outputs on), then the dynamics are stepped
+            # again through the element-level calls with the other T (Network.step would create new
+            # variables), and everything later refers to that last step
+            try:
+                other0 = {k: v for k, v in self.spars.items() if v is not None and k not in self.parameters}
+                self.engine.to_function(self.built.net, compact=rng.choice((0, 1, 2)), more_out=True,
+                                        parameters=(self.parameters or None), **other0)
+            except Exception:
+                pass
+            self.pars = dict(self.pars, T=restep_T)
+            self.spars = dict(self.spars, T=restep_T)
+            nxt_opts = {k: v for k, v in self.opts.items() if k.startswith("positive_next")}
+            drive.step_elements(self.built.net, rng.choice(drive.VIAS[1:]), engine=self.engine, rng=rng, only_init=[],
+                                **nxt_opts, **drive.step_pars(self.spars))
+            self.restepped = True
         # the function may be requested from the stepping engine object, from another engine object of
         # the same symbol type, or from one of the other symbol type (the README idiom
         # `sym_metanet.engine.to_function(net, ...)` after the current engine was switched)
@@ -173,7 +205,7 @@ class CompileCase:
         pv = self.pvalues if pvalues is None else pvalues
         return C.call_positional(F, self.desc, self.order, self.effective(vals), compact, more_out,
                                  params=({k: pv[k] for k in self.parameters} if self.parameters else None),
-                                 fixed=set(self.fixed))
+                                 fixed=set(self.fixed), scaled=(self.scaled or None))
 
 
 def numpy_twin_next(M, desc, vals, pars, opts=None, ops=None, scalar_shape="vec1", int_dtype=False):
